@@ -4,6 +4,7 @@ from pyvc import api, heap
 from pyvc.api import contract, Int, Bool, Str, OptT, ObjT, TupT, SeqT
 from pyvc.values import *  # noqa
 from .common import Record
+from .c09 import mt_spec
 from .shapes import MatchT, SingleMatchT, InfoT, AdapterT, match_spec, record_spec
 
 TRUSTED = [
@@ -103,7 +104,7 @@ def ra_retained(c):
     c.mutant("0, self.rstop", "0, self.rstart")
 
 
-LinkedT = ObjT("LinkedMatch", front_match=OptT(SingleMatchT), back_match=OptT(SingleMatchT), adapter=AdapterT, __cls__=Int)
+from .shapes import LinkedT   # noqa
 LINKED_WF = dict(
     some_part="not is_none(self.front_match) or not is_none(self.back_match)",
     front_wf="implies(not is_none(self.front_match), wf_single(val(self.front_match)) and val(self.front_match).__cls__ == RB())",
@@ -198,7 +199,7 @@ ACT_PRE = dict(
 def masked_read(c):
     c.types(read=Record, matches=MatchesT)
     c.returns(Record)
-    c.spec(match_spec2)
+    c.spec(mt_spec)
     c.spec(record_spec)
     c.requires(**ACT_PRE)
     c.ensures(
@@ -216,7 +217,7 @@ def masked_read(c):
 def lowercased_read(c):
     c.types(read=Record, matches=MatchesT)
     c.returns(Record)
-    c.spec(match_spec2)
+    c.spec(mt_spec)
     c.spec(record_spec)
     c.requires(**ACT_PRE)
     c.ensures(
@@ -235,7 +236,7 @@ def lowercased_read(c):
 def cropped_read(c):
     c.types(read=Record, matches=MatchesT)
     c.returns(Record)
-    c.spec(match_spec2)
+    c.spec(mt_spec)
     c.spec(record_spec)
     c.requires(rec=REC_WF, nonempty="len(matches) >= 1",
                last_is_single="elem(matches, len(matches) - 1).__cls__ != LM()")
@@ -247,7 +248,7 @@ def cropped_read(c):
 def trim_but_retain_adapter(c):
     c.types(read=Record, matches=MatchesT)
     c.returns(Record)
-    c.spec(match_spec2)
+    c.spec(mt_spec)
     c.spec(record_spec)
     c.requires(rec=REC_WF, nonempty="len(matches) >= 1", all_wf="forall(t, 0, len(matches), wf(elem(matches, t)))")
     c.ensures(keeps_adapter_and_remainder="rec_is_slice(result, read, ret0(elem(matches, len(matches) - 1)), ret1(elem(matches, len(matches) - 1)))")
@@ -316,12 +317,12 @@ def match_and_trim(c):
     c.returns(TupT(Record, MatchesT))
     c.local_types["matches"] = MatchesT
     c.modifies = ["read"]
-    c.spec(match_spec2)
+    c.spec(mt_spec)
     c.spec(record_spec)
     c.spec(upper_rec)
     c.requires(rec=REC_WF, action_ok=ACTION_OK,
                single_round_for_retain_and_crop="implies(%s or %s, self.times == 1)" % (IS("retain"), IS("crop")),
-               crop_not_with_linked="implies(%s, not self.adapters.has_linked)" % IS("crop"))
+               crop_not_with_linked="implies(%s, no_linked(self.adapters))" % IS("crop"))
     c.ghost("g_prev = matches", before="matches.append(match)")
     c.ghost("__lemma__('start_frame', g_prev, matches, len(g_prev))", after="matches.append(match)")
     c.loop(1, head="for _ in range(self.times)", inv=[
@@ -333,7 +334,7 @@ def match_and_trim(c):
         "implies(len(matches) > 0, mlen(elem(matches, 0)) == len(read.sequence))",
         "forall(t, 1, len(matches), mlen(elem(matches, t)) == hi(elem(matches, t - 1)) - lo(elem(matches, t - 1)))",
         "implies(len(matches) == 0, rec_same(trimmed_read, read))",
-        "implies(not self.adapters.has_linked, forall(t, 0, len(matches), elem(matches, t).__cls__ != LM()))",
+        "implies(no_linked(self.adapters), forall(t, 0, len(matches), elem(matches, t).__cls__ != LM()))",
         "is_none(trimmed_read.qualities) or len(val(trimmed_read.qualities)) == len(trimmed_read.sequence)",
     ])
     c.ensures(**MT_POST)
@@ -353,7 +354,7 @@ def match_and_trim_once(c):
     it must satisfy the same postcondition (behavioural subtyping of the rebinding)."""
     c.types(self=CutterT, read=Record)
     c.returns(TupT(Record, MatchesT))
-    c.spec(match_spec2)
+    c.spec(mt_spec)
     c.spec(record_spec)
     c.spec(upper_rec)
     c.requires(rec=REC_WF, bound_only_when="self.times == 1 and %s" % IS("trim"))
@@ -376,12 +377,12 @@ def adapter_cutter_call(c):
     c.types(self=CutterT, read=Record, info=InfoT)
     c.returns(Record)
     c.modifies = ["self", "info", "read"]
-    c.spec(match_spec2)
+    c.spec(mt_spec)
     c.spec(record_spec)
     c.spec(upper_rec)
     c.requires(rec=REC_WF, action_ok=ACTION_OK,
                single_round_for_retain_and_crop="implies(%s or %s, self.times == 1)" % (IS("retain"), IS("crop")),
-               crop_not_with_linked="implies(%s, not self.adapters.has_linked)" % IS("crop"))
+               crop_not_with_linked="implies(%s, no_linked(self.adapters))" % IS("crop"))
     c.loop(1, head="for match in matches", inv=["0 <= __k1 <= len(matches)"])
     c.ensures(**_subst(MT_POST, "result", "matches"))
     c.ensures(
@@ -405,7 +406,7 @@ PairT = TupT(MatchT, MatchT)
 def find_best_match_pair_abstract(c):
     c.types(self=PairedCutterT, sequence1=Str, sequence2=Str)
     c.returns(OptT(PairT))
-    c.spec(match_spec2)
+    c.spec(mt_spec)
     c.ensures(both_wellformed_on_their_reads="implies(not is_none(result), wf(val(result)[0]) and wf(val(result)[1]) and "
                                             "mlen(val(result)[0]) == len(sequence1) and mlen(val(result)[1]) == len(sequence2) and "
                                             "val(result)[0].__cls__ != LM() and val(result)[1].__cls__ != LM())")
@@ -438,7 +439,7 @@ def paired_adapter_cutter_call(c):
     c.types(self=PairedCutterT, read1=Record, read2=Record, info1=InfoT, info2=InfoT)
     c.returns(TupT(Record, Record))
     c.modifies = ["self", "info1", "info2", "read1", "read2"]
-    c.spec(match_spec2)
+    c.spec(mt_spec)
     c.spec(record_spec)
     c.spec(upper_rec)
     c.requires(rec1="is_none(read1.qualities) or len(val(read1.qualities)) == len(read1.sequence)",
